@@ -53,7 +53,12 @@ def run_case(job):
     nt = False
     try:
         box.build(tree.spec("in"))
-        if symlink:
+        if symlink == "filelink":
+            # a sub-directory whose only CMake entry is a symbolic link to a file
+            os.makedirs(box.path("work", "in", "compat"))
+            os.symlink(os.path.join("..", "a.cmake"), box.path("work", "in", "compat", "old_name.cmake"))
+            box.build({"in/compat/v1/shim.cmake": fsbox.cmake_content("shim.cmake")})
+        elif symlink:
             # a symbolic link to a directory with CMake files, inside the input directory
             if symlink == "child" and len(parents) > 1:
                 target = tree.names[1]
@@ -100,7 +105,7 @@ def run(ctx):
     jobs = []
     for parents in shapes:
         n = len(parents)
-        for a in assignments(n, 1 if quick else (2 if n <= 4 else 1)):
+        for a in assignments(n, 1 if quick else (2 if n <= 4 else 1), with_indexfile=True):
             t = Tree(parents, a)
             pats = patterns_for(t, "<box>")
             psets = [[]] + [[p] for p in pats]
@@ -114,7 +119,7 @@ def run(ctx):
     # symbolic links to directories (followed and not followed)
     for parents in shapes:
         a = ["one"] * len(parents)
-        for symlink in ("child", "outside"):
+        for symlink in ("child", "outside", "filelink"):
             for follow in (False, True):
                 for recursive, auto in itertools.product((True, False), (True, False)):
                     jobs.append((parents, a, recursive, auto, None, [], symlink, follow))
@@ -126,6 +131,16 @@ def run(ctx):
     ctx.assumptions += ["with auto-exclusion on the input directory keeps a non-excluded .cmake file (domain of C13/C14)",
                         "a run that produces no output at all (excluded input) is C15's business"]
     return RULE
+
+
+def attribute(case, msgs):
+    """K4 (see C13.attribute): only if the tree holds a file named index.cmake and the case passes once it is renamed"""
+    c = list(case)
+    if "indexfile" not in c[1]:
+        return None
+    c[1] = ["indexfile_renamed" if x == "indexfile" else x for x in c[1]]
+    c[5] = [p.replace("index.cmake", "index_.cmake") for p in c[5]]
+    return "K4" if not run_case(tuple(c))["viol"] else None
 
 
 def replay(case):
